@@ -61,7 +61,8 @@ def one_round(n, tag, probs):
     return None
 
 
-EDIF_VARIANTS = ("edif-identifiers", "edif-identifiers-taken", "edif-identifiers-long", "edif-identifiers-nameless")
+EDIF_VARIANTS = ("edif-identifiers", "edif-identifiers-taken", "edif-identifiers-long", "edif-identifiers-nameless",
+                 "edif-identifiers-long:9", "edif-identifiers-long:99", "edif-identifiers-long:999")
 
 
 def worker(case):
@@ -86,7 +87,7 @@ def worker(case):
             l["EDIF.identifier"] = "ID_" + l.name
             for d in list(l.definitions):
                 d["EDIF.identifier"] = "ID_" + d.name
-                if variant == "edif-identifiers-long" and not elab.is_leaf_def(d):
+                if variant.startswith("edif-identifiers-long") and not elab.is_leaf_def(d):
                     d["EDIF.identifier"] = "ID_" + d.name + "_" + "x" * (251 - len(d.name))   # 255 characters
                 if variant == "edif-identifiers-nameless" and not elab.is_leaf_def(d) and d is not n.top_instance.reference:
                     del d.name
@@ -95,7 +96,12 @@ def worker(case):
                 if variant == "edif-identifiers-taken" and not elab.is_leaf_def(d) and d is not n.top_instance.reference:
                     # siblings whose *identifiers* equal, up to letter case, the ones uniquify derives
                     for k in range(3):
-                        l.create_definition(name="other_%s_%d" % (d.name, k))["EDIF.identifier"] = ("ID_%s_sdn_unique_%d" % (d.name, k)).lower()
+                        taken_id = "ID_%s_sdn_unique_%d" % (d.name, k)   # spelled as generated, or in lower case
+                        l.create_definition(name="other_%s_%d" % (d.name, k))["EDIF.identifier"] = taken_id if k % 2 == 0 else taken_id.lower()
+    if variant and variant.startswith("edif-identifiers-long:"):
+        # not the first uniquify of the process: the counter behind the generated suffixes is about to gain a digit
+        import spydrnet.uniquify as uq
+        uq.MOD_NAME_UID = int(variant.split(":")[1])
     if variant == "name-clash":
         # a sibling already carries the name the renaming counter will produce first
         lib = n.libraries[0]
@@ -196,6 +202,8 @@ def cases(tier):
             out.append((desc, "asc", "edif-identifiers"))
             out.append((desc, "asc", "edif-identifiers-taken"))
             out.append((desc, "asc", "edif-identifiers-long"))
+            for digits in ("9", "99", "999"):
+                out.append((desc, "asc", "edif-identifiers-long:" + digits))
             out.append((desc, "asc", "edif-identifiers-nameless"))
             out.append((desc, "asc", "other-policy-in-force"))
         if desc[0] in ("K1-chain2", "K2-shared", "K5-chain3") and (tier == "thorough" or sum(desc[1]) % 11 == 0):
